@@ -701,6 +701,20 @@ static void run_forceauto(void)
    enc_run(16000, 2, 2048, ops, n, &r);
 }
 
+/* Deterministic corpus case (defect D5, fixed by 9ffbe457): CBR at a low rate with 60 ms frames leaves only the LAST stream
+   past its first frame; OPUS_SET_APPLICATION is then refused by that stream and must leave the earlier ones unchanged. */
+static void run_msapp(void)
+{
+   static msop mops[8]; static const unsigned char map[3] = {0, 1, 2}; int n = 0; vrng r; r.s = 99;
+   memset(mops, 0, sizeof mops);
+   mops[n].kind = 's'; mops[n].id = 4006; mops[n].v = 0; n++;
+   mops[n].kind = 's'; mops[n].id = 4002; mops[n].v = 7203; n++;
+   mops[n].kind = 'E'; mops[n].fsz = 480; mops[n].bytes = 37; mops[n].sig = 1; mops[n].v = 80694; n++;
+   mops[n].kind = 's'; mops[n].id = 4000; mops[n].v = 2051; n++;
+   mops[n].kind = 'g'; mops[n].id = 4001; n++;
+   msenc_run(8000, 3, 3, 0, map, 2049, mops, n, &r);
+}
+
 /* starvation histories for multistream / surround / ambisonics / projection encoders: tiny bit-rates and buffers, CBR and
    VBR, all frame sizes, then OPUS_SET_APPLICATION attempts — looking for a stream that codes a frame before stream 0 does
    (CONTRACT(ms-first)) and for a partially applied SET_APPLICATION (S4 predicate ctl-reject) */
@@ -1051,6 +1065,7 @@ int main(int argc, char **argv)
    else if (argc >= 4 && !strcmp(argv[1], "rand")) run_rand(strtoull(argv[2], 0, 10), atol(argv[3]));
    else if (argc >= 2 && !strcmp(argv[1], "forceauto")) run_forceauto();
    else if (argc >= 2 && !strcmp(argv[1], "fssbig")) run_fssbig();
+   else if (argc >= 2 && !strcmp(argv[1], "msapp")) run_msapp();
    else if (argc >= 2 && !strcmp(argv[1], "stdin")) run_lines();
    else if (argc >= 4 && !strcmp(argv[1], "msstarve")) run_msstarve(strtoull(argv[2], 0, 10), atol(argv[3]));
    else if (argc >= 4 && !strcmp(argv[1], "reapp")) run_reapp(strtoull(argv[2], 0, 10), atol(argv[3]));
